@@ -43,6 +43,8 @@ Fixpoint add_defaults (ms : list tmodel) (dims : list dref) (metric_models : lis
 Definition apply_defaults (ms : list tmodel) (metrics : list (option string)) (dims : list dref) : list dref :=
   (dims ++ add_defaults ms dims (flat_map (fun o => match o with Some m => [m] | None => [] end) metrics) (models_with_time ms dims) [] [])%list.
 
+Definition drefs_eqb (a b : list dref) : bool := Nat.eqb (length a) (length b) && forallb (fun p => dref_eqb (fst p) (snd p)) (combine a b).
+
 (* validate_query, granularity part (after the repair): the suffix must be one of the six names and the field a time dimension *)
 Definition gran_names : list string := ["hour"; "day"; "week"; "month"; "quarter"; "year"].
 Definition gran_errors (ms : list tmodel) (d : dref) : nat :=
